@@ -11,7 +11,7 @@ def roundEvenF (x : Float) : Int :=
   let fi : Int := f.toInt64.toInt
   if d < 0.5 then fi else if d > 0.5 then fi + 1 else if fi % 2 == 0 then fi else fi + 1
 
-instance : FftLike Float := ⟨roundEvenF, fun a b => if b < a then b else a⟩
+instance : FftLike Float := ⟨roundEvenF, fun a b => if b < a then b else a, fun a b => decide (b < a)⟩
 
 def scratchOfJson (j : Json) : R (Option (Arr CF)) :=
   match optVal j "scratch" with
@@ -47,7 +47,15 @@ def handle (op : String) (j : Json) : Option (R Json) :=
         let canvas := wavefrontField one [fld] so.1 so.2
         pure (okJ [("wavelength", floatToJson lam), ("fft_shape", ints #[S0, S1]), ("shape_out", ints #[so.1, so.2]),
                    ("canvas", cfArrToJson canvas),
-                   ("pixelscale", Json.arr #[floatToJson (du[0]! / Float.ofInt os), floatToJson (du[1]! / Float.ofInt os)])])
+                   ("pixelscale", Json.arr #[floatToJson (fftMeta lam dx[0]! dx[1]! du[0]! du[1]! z wl os).2.1.1,
+                                             floatToJson (fftMeta lam dx[0]! dx[1]! du[0]! du[1]! z wl os).2.1.2]),
+                   ("focal_length", floatToJson (fftMeta lam dx[0]! dx[1]! du[0]! du[1]! z wl os).2.2)])
+  | "c09.scratch_shape" => some do
+      let dx ← getFloats j "dx"; let du ← getFloats j "du"
+      let mw ← getFloat j "max_wl"; let z ← getFloat j "z"
+      let os ← getInt j "os"
+      let s := scratchShape mw dx[0]! dx[1]! du[0]! du[1]! z os
+      pure (okJ [("shape", ints #[s.1, s.2])])
   | "c09.fft2c" => some do
       let x ← cfArrOfJson j
       pure (okJ [("F", cfArrToJson (fft2c (R := Float) x))])
